@@ -27,7 +27,7 @@ for f in sorted(tot):
     if tot[f] and not f.startswith("verif_"): print("| %s | %d | %d | %.1f |" % (f, cov[f], tot[f], 100.0 * cov[f] / tot[f]))
 print("\n## Uncovered blocks\n")
 for f in sorted(unc):
-    if f.startswith("verif_") or f.startswith("tools/"): continue
+    if f.startswith("verif_") or f.startswith("tools/") or f == "ast/ast.go": continue   # ast.go: only the empty marker methods
     try: src = open(R + '/' + f).read().split('\n')
     except Exception: continue
     print("### %s\n" % f)
